@@ -8,6 +8,7 @@ THEOREMS = []
 RULE = ("grammar-directed documents of DESIGN.md 5.1 (0..60 items, every spelling choice drawn at random) x 7 delimiter sets x 3 comment "
         "sets x final newline present/absent; non-trivial = at least one entry or section; distinct by file content and sets")
 PATH = b"/etc/app/doc.conf"
+SHRINK = False
 
 
 def make(rng, sid, nitems, hist, single_line=False):
